@@ -134,8 +134,16 @@ Proof. exact fmean_spec. Qed.
 Theorem C13_fmean_empty : fmean [] = B754_nan.
 Proof. exact fmean_nil. Qed.
 
-(* the hypotheses of C13_fsum_exact are met by [0.5; 0.25; 1; 2] (sum 3.75); 0.1 + 0.2 + 0.3 is NOT exact and
-   depends on the order; a partial sum may overflow although the total would fit; Mean inherits it *)
+(* non-vacuity of C13_fsum_exact: [float64(1); float64(2); float64(3)] meets its hypotheses; the sum is 6 *)
+Example C13_fsum_exact_nonvacuous :
+  let l := [f_of_int 1; f_of_int 2; f_of_int 3] in
+  Forall (fun x => is_finite x = true) l /\
+  (forall k, (k <= length l)%nat ->
+     fmt64 (rsum (firstn k l)) /\ (Rabs (rsum (firstn k l)) < bpow radix2 1024)%R) /\
+  B2R (fsum l) = 6%R.
+Proof. exact fsum_exact_example. Qed.
+(* [0.5; 0.25; 1; 2] adds exactly (3.75); 0.1 + 0.2 + 0.3 does NOT and depends on the order; a partial sum
+   may overflow although the total would fit; Mean inherits it *)
 Example C13_fsum_examples :
   map bits_of_f64 [fsum [f0_5; f0_25; f1; f2]; fsum [f0_1; f0_2; f0_3]; fsum [f0_3; f0_2; f0_1];
                    fsum [f1e308; f1e308; fneg f1e308]; fsum [fpinf; fminf]; fsum [fnz]; fsum [fnz; fnz];
@@ -376,6 +384,21 @@ Theorem C13_frange_counter_moves : forall f i step e acc,
   (flt e i = true -> flt e (round2 i) = true -> flt (fsub i step) i = true ->
    frange_down (S f) i step e acc = frange_down f (fsub i step) step e (round2 i :: acc)).
 Proof. intros. split; [apply frange_up_moves | apply frange_down_moves]. Qed.
+(* termination: [ford] places every float64 on the number line as an integer (its 63 magnitude bits, negated
+   for negative values; both zeros at 0), strictly monotone under <.  Every turn of a loop moves the counter
+   strictly toward end, so at most ford(end) - ford(start) turns are made: with an iteration budget of
+   2 * 2047 * 2^52 (< 2^64) the model answers FFuel on NO arguments — every Range / RangeRight call at
+   float64 returns (before a549427 the loop did not, see C13_frange_asfound_examples) *)
+Theorem C13_ford_monotone : forall x y, flt x y = true -> (ford x < ford y)%Z.
+Proof. exact ford_lt. Qed.
+Theorem C13_frange_terminates : forall cap args, (2 * (2047 * two52) <= Z.of_nat cap)%Z ->
+  frange cap args <> FFuel /\ frange_right cap args <> FFuel.
+Proof. exact frange_terminates. Qed.
+(* the budget a single loop needs: the distance between the positions of counter and end *)
+Theorem C13_frange_loop_budget : forall fuel i step e acc,
+  ((Z.to_nat (ford e - ford i) <= fuel)%nat -> frange_up fuel i step e acc <> FFuel) /\
+  ((Z.to_nat (ford i - ford e) <= fuel)%nat -> frange_down fuel i step e acc <> FFuel).
+Proof. intros. split; [apply frange_up_terminates | apply frange_down_terminates]. Qed.
 (* exactly the rejected argument shapes (every test is false on NaN, so NaN arguments are never rejected) *)
 Theorem C13_frange_errors : forall cap args,
   (exists k, frange cap args = FErr k) <->
@@ -442,6 +465,9 @@ Definition C13_float_range_theorems :=
    C13_fbefore_real,
    C13_frange_stops_when_stuck,
    C13_frange_counter_moves,
+   C13_ford_monotone,
+   C13_frange_terminates,
+   C13_frange_loop_budget,
    C13_frange_errors,
    C13_frange_right,
    C13_round2,
